@@ -688,17 +688,20 @@ private:
 
       _tasks.emplace(std::move(f));
 
-      // Check if we should spawn a new thread
-      if (_threads.size() < _maxSize)
+      // Check if we should spawn a new thread. The slot is reserved here, under the
+      // lock: the spawn itself happens after the unlock, and concurrent submitters
+      // that all saw "below the maximum" would otherwise overshoot _maxSize.
+      if (_threads.size() + _pendingSpawns < _maxSize)
       {
         shouldSpawn = true;
+        ++_pendingSpawns;
       }
     } // Release mutex here
 
     // Spawn outside of the lock to avoid deadlock
     if (shouldSpawn)
     {
-      spawnWorker();
+      spawnWorker(true);
     }
 
     _condition.notify_one();
@@ -727,24 +730,27 @@ private:
 
       _tasks.emplace(std::move(f));
 
-      // Check if we should spawn a new thread
-      if (_threads.size() < _maxSize)
+      // Check if we should spawn a new thread. The slot is reserved here, under the
+      // lock: the spawn itself happens after the unlock, and concurrent submitters
+      // that all saw "below the maximum" would otherwise overshoot _maxSize.
+      if (_threads.size() + _pendingSpawns < _maxSize)
       {
         shouldSpawn = true;
+        ++_pendingSpawns;
       }
     } // Release mutex here
 
     // Spawn outside of the lock to avoid deadlock
     if (shouldSpawn)
     {
-      spawnWorker();
+      spawnWorker(true);
     }
 
     _condition.notify_one();
     return true;
   }
 
-  void spawnWorker()
+  void spawnWorker(bool reserved = false)
   {
     std::thread t(
       [this]()
@@ -929,6 +935,10 @@ private:
     std::lock_guard<std::mutex> lock(_mutex);
     auto threadId = t.get_id();
     _threads.emplace(threadId, std::move(t));
+    if (reserved)
+    {
+      --_pendingSpawns; // the reservation made by enqueue is now a registered thread
+    }
 
     // NOTE: Exit acknowledgment flag is initialized INSIDE the lambda (at thread start)
     // to avoid race condition. Do NOT initialize it here!
@@ -1143,6 +1153,7 @@ private:
 
 private:
   std::unordered_map<std::thread::id, std::thread> _threads;
+  std::size_t _pendingSpawns{0}; // spawn decisions taken under _mutex, thread not yet registered
   std::queue<std::function<void()>> _tasks;
   mutable std::mutex _mutex;
   std::condition_variable _condition;
